@@ -26,6 +26,12 @@ func init() {
 			c.Rule("C09.R5", "the bundled SQLite store can append while a read cursor is open (pool not capped to one connection, no exclusive locking mode)")
 			if ps := c.Prog(ModSQLite); ps != nil {
 				checkPoolNotStarved(c, ps, "C09.R5")
+				checkStoreDecodeTargets(c, ps, PkgSQLite, "C09.R3")
+			}
+			// "decoding a record yields the published value": the bundled stores decode each
+			// record into its own object
+			if pd := c.Prog(ModDurable); pd != nil {
+				checkStoreDecodeTargets(c, pd, PkgDurable, "C09.R3")
 			}
 			c.Assume = append(c.Assume, "EventStore.Append is synchronous in the bundled stores", "json.Marshal/EventType are deterministic functions of the event")
 		},
